@@ -27,6 +27,9 @@
 #include "orange/transform/SignedPermutation.hh"
 #include "orange/transform/Transformation.hh"
 #include "orange/transform/Translation.hh"
+#include "orange/transform/NoTransformation.hh"
+#include "orange/transform/TransformSimplifier.hh"
+#include "orange/transform/VariantTransform.hh"
 
 using namespace celeritas;
 using verif::hex;
@@ -251,6 +254,36 @@ int main()
                     pr3(os, up);
                     pr3(os, sp2.rotate_down(up));
                     pr3(os, sp2.rotate_up(sp2.rotate_down(p)));
+                }
+            }
+            else if (cmd == "tsimp")
+            {
+                // TransformSimplifier on a Translation (kind 1) or a Transformation (kind 2)
+                int kind; is >> kind;
+                SquareMatrixReal3 rot;
+                for (auto& row : rot) row = rd3(is);
+                Real3 tra = rd3(is);
+                double eps = rd(is);
+                Tolerance<> tol; tol.rel = eps; tol.abs = eps;
+                VariantTransform orig;
+                if (kind == 0) orig = NoTransformation{};
+                else if (kind == 1) orig = Translation{tra};
+                else orig = Transformation{rot, tra};
+                VariantTransform out = std::visit(TransformSimplifier{tol}, orig);
+                os << "ok " << out.index();
+                std::visit(
+                    [&os](auto const& t) {
+                        auto d = t.data();
+                        os << " " << d.size();
+                        for (auto x : d) os << " " << hex(x);
+                    },
+                    out);
+                std::size_t npts; is >> npts;
+                for (std::size_t i = 0; i < npts; ++i)
+                {
+                    Real3 p = rd3(is);
+                    pr3(os, std::visit([&p](auto const& t) { return t.transform_up(p); }, orig));
+                    pr3(os, std::visit([&p](auto const& t) { return t.transform_up(p); }, out));
                 }
             }
             else { os << "unknown"; }
